@@ -13,7 +13,7 @@ EXPLANATION = ("Who-may-call inventory of the global allocator over all compiled
 RULE = "rule instance = (rule, function, call/store site); distinct by (rule, function, site)"
 
 
-def run(ctx, config='rel-all'):
+def run(ctx, config='rel-all', shares=True):
     A = arena.analyse(ctx, config)
     db = ctx.db(config)
     ctx.assume("A4 the global allocator honours its contract", "nightly rustc MIR construction")
@@ -174,6 +174,15 @@ def run(ctx, config='rel-all'):
             else:
                 ctx.ok('R8', '%s via %s: no panic site is reachable between the acquisition and the publication of the chunk' % (fn, key), 'must-facts of every diverging event')
     ctx.floor('R8', n8, 10, 'acquisition sites checked for panics before publication')
+    # ---- R9 the crate's own clients of the arena keep the allocation contract (a footer overwritten through a stale
+    # capacity is given back to the global allocator as a pointer it never returned); R10 nothing can hold a reference
+    # into a chunk past reset / drop: the region rule and the compile-verdict witnesses of C05
+    from . import clients, c05
+    from .. import runner
+    if shares:
+        clients.check(ctx, config, 'R9')
+        if config == 'rel-all':
+            c05.run(runner.Sub(ctx, 'R10', 'C05'), config)
     # ---- R6 no destructors from reset/drop
     for key in ('drop', 'reset'):
         val = A.get(key)
